@@ -16,6 +16,7 @@ From Ice Require Import Model.AgentTypes Model.AgentCore Gen.Consts Gen.Lifecycl
      Proofs.AgentFrame Proofs.AgentC02 Proofs.AgentC03 Proofs.AgentC03Sel Proofs.AgentC20 Proofs.AgentC06 Proofs.AgentRem
      Proofs.AgentEnds Proofs.AgentSelProv.
 From Ice Require Import Proofs.AgentEnds Proofs.AgentSingleNom.
+From Ice Require Import Proofs.AgentGenRules.
 Import ListNotations.
 Local Open Scope Z_scope.
 
@@ -200,3 +201,28 @@ Module C03_example_single_nomination.
     = ([(1, hi, 3); (1, hi, 4)], Some 1).
   Proof. vm_compute. reflexivity. Qed.
 End C03_example_single_nomination.
+
+(* ---- decision functions the model takes from the code (regenerated from /repo on every run), pinned ------------------ *)
+Theorem C03_nominatable_rule : forall cfg s c,
+  is_nominatable cfg s c =
+  match acceptance_wait cfg c with
+  | Some w => w <=? since cfg s (s_sel_start s)
+  | None => false
+  end.
+Proof. exact nominatable_rule. Qed.
+Print Assumptions C03_nominatable_rule.
+
+Theorem C03_pair_equal_rule : forall a b,
+  pair_equal a b = cand_equal (p_loc a) (p_loc b) && cand_equal (p_rem a) (p_rem b).
+Proof. exact pair_equal_rule. Qed.
+Print Assumptions C03_pair_equal_rule.
+
+Theorem C03_switch_rule : forall has_sel same has_nom check sel_prio prio,
+  shouldSwitchSelectedPair has_sel same has_nom check sel_prio prio =
+  if negb has_sel then true else if same then false else if has_nom then true else negb check || (sel_prio <? prio).
+Proof. exact switch_rule. Qed.
+Print Assumptions C03_switch_rule.
+
+Theorem C03_priority_check_rule : forall lite flag, needsToCheckPriorityOnNominated lite flag = negb lite || flag.
+Proof. exact priority_check_rule. Qed.
+Print Assumptions C03_priority_check_rule.
